@@ -63,7 +63,12 @@ Record nums (m : st) (s : spec) : Prop := {
   nu_max : s_max m = sp_max s;
   nu_dmax : d_max (s_db m) = s_max m;
   nu_min : min_rel m s;
-  nu_prev : s_prev m = sp_prev s
+  nu_prev : s_prev m = sp_prev s;
+  (* the store's minHeight lags the memory only after a rollback to 0 *)
+  nu_dmin : d_min (s_db m) = s_min m \/ (s_min m = 0 /\ s_max m = 0 /\ d_min (s_db m) <= 1);
+  (* the journal of the current height carries the running root *)
+  nu_root : (s_max m = 0 /\ s_prev m = zero32) \/
+            (exists jn, aget (s_max m) (d_jnl (s_db m)) = Some jn /\ j_root jn = s_prev m)
 }.
 
 Record Sim (m : st) (s : spec) : Prop := {
@@ -86,12 +91,28 @@ Proof.
   - intros a. rewrite (fl_acct_frame m m' Hd Hc). apply F2.
 Qed.
 
+Lemma nums_transfer m m' s s' :
+  s_next m' = sp_next s' -> s_max m' = s_max m -> s_db m' = s_db m -> s_min m' = s_min m -> s_prev m' = s_prev m ->
+  sp_pend s' = sp_pend s -> sp_max s' = sp_max s -> sp_min s' = sp_min s -> sp_prev s' = sp_prev s ->
+  nums m s -> nums m' s'.
+Proof.
+  intros H1 H2 H3 H4 H5 P1 P2 P3 P4 [N1 N2 N3 N4 N5 N6 N7 N8]. apply Build_nums.
+  - congruence.
+  - exact H1.
+  - congruence.
+  - congruence.
+  - unfold min_rel in *. rewrite H4, P2, P3. exact N5.
+  - congruence.
+  - rewrite H3, H4, H2. exact N7.
+  - rewrite H2, H3, H5. exact N8.
+Qed.
+
 Lemma nums_frame m m' s :
   s_next m' = s_next m -> s_max m' = s_max m -> s_db m' = s_db m -> s_min m' = s_min m -> s_prev m' = s_prev m ->
   nums m s -> nums m' s.
 Proof.
-  intros H1 H2 H3 H4 H5 [N1 N2 N3 N4 N5 N6]. constructor; try congruence.
-  unfold min_rel in *. rewrite H4. exact N5.
+  intros H1 H2 H3 H4 H5 Nu. apply (nums_transfer m m' s s); try assumption; try reflexivity.
+  rewrite H1. apply Nu.
 Qed.
 
 (** * snapshots under a step that pushes undo entries *)
